@@ -27,6 +27,10 @@
   model's value on the covered rows and the uninitialised memory `junk` on the others) and may even repeat an index
   (NumPy does not specify the order of the writes of `W_star[g] = …` then; the rows written twice receive identical
   values, so the order is irrelevant — the DSL keeps the last write, the model the first occurrence).
+  The proofs do not depend on which temporaries the source uses: `mlp_prox_grad_spec` unfolds every `let` and names the
+  NumPy EXPRESSIONS themselves (`name_expr`, Lemmas/Np2.lean); it accepts the breakpoint count as `np.sum` or
+  `np.count_nonzero` of `lower > w`, the selected column with or without its (redundant) `.reshape((batch, 1))`, and the
+  signs as `np.where(u >= 0, 1, -1)` or as `np.full(u.shape, -1)` overwritten with `1` where `u >= 0`.
   The theorems of Props/C05.lean and C06.lean, stated about Model/Prox.lean, therefore speak about the current source.
 -/
 import GemVerif.Lemmas.ProxGen
@@ -118,87 +122,95 @@ theorem mlp_prox_grad_spec (H : OrderLaws α) (al M : α) {V U : Arr α} {Ws : F
     ((∃ i, hierIdx (uAbsSorted (W1 i)) al M (norm2 (Ws i)) = h + 1) →
       (Gen.Prox.mlp_prox_grad V U al M).1.ok = false ∧ (Gen.Prox.mlp_prox_grad V U al M).2.ok = false) := by
   unfold Gen.Prox.mlp_prox_grad
-  extract_lets v u S batch kk s zeros a_s norm_v x w intervals lower idx x_star w_star beta_star theta_star flags
+  -- all `let`s are unfolded: what follows speaks about the NumPy EXPRESSIONS of the source, whatever temporaries name them
+  dsimp only
   obtain ⟨hVok, hVr, hVc, hVget⟩ := id hV
   obtain ⟨hUok, hUr, hUc, hUget⟩ := id hU
   have hLlen : ∀ i, (uAbsSorted (W1 i)).length = h := fun i => uAbsSorted_length' _
-  have hb : batch = d := hUr
-  have hk : kk = h := hUc
-  clear_value batch kk
-  subst hb hk
-  -- the sorted absolute values
+  subst hUr hUc
+  -- the sorted absolute values `np.sort(np.abs(u), axis=1)[:, ::-1]`
   have hUabs : IsMat (Arr.abs U) (fun i j => RealLike.abs (W1 i j)) := by
-    refine ⟨?_, ?_, ?_, ?_⟩ <;> simp [hUok, hUr, hUc, hUget]
-  have hS : IsMat S (fun i (j : Fin kk) => (uAbsSorted (W1 i)).getD j.val 0) := hUabs.sortFlip H
+    refine ⟨?_, ?_, ?_, ?_⟩ <;> simp [hUok, hUget]
+  have hS : IsMat (flipCols (sortAxis1 (Arr.abs U))) (fun i (j : Fin U.c) => (uAbsSorted (W1 i)).getD j.val 0) :=
+    hUabs.sortFlip H
+  name_expr S := flipCols (sortAxis1 (Arr.abs U)) at hS
   obtain ⟨hS_ok, hS_r, hS_c, hS_get⟩ := id hS
-  clear_value S
-  have hS_nat : ∀ (i : Fin batch) (l : Nat), l < kk → S.get i.val l = (uAbsSorted (W1 i)).getD l 0 :=
+  have hS_nat : ∀ (i : Fin U.r) (l : Nat), l < U.c → S.get i.val l = (uAbsSorted (W1 i)).getD l 0 :=
     fun i l hl => hS.get_nat i.isLt hl
-  -- s, zeros
-  obtain ⟨hs_ok, hs_r, hs_c, hs_get⟩ : IsRow s (fun j : Fin (kk + 1) => (nat j.val : α)) := by
-    refine ⟨?_, ?_, ?_, ?_⟩ <;> simp [s]
-  clear_value s
-  have hz : zeros.ok = true ∧ zeros.r = batch ∧ zeros.c = 1 ∧ ∀ i j, zeros.get i j = 0 := by
-    refine ⟨?_, ?_, ?_, ?_⟩ <;> simp [zeros]
+  -- `np.arange(k + 1.0).reshape((1, -1))`, `np.zeros((batch, 1))`
+  have hs : IsRow (reshapeRow (arange (U.c + 1)) : Arr α) (fun j : Fin (U.c + 1) => (nat j.val : α)) := by
+    refine ⟨?_, ?_, ?_, ?_⟩ <;> simp
+  name_expr s := (reshapeRow (arange (U.c + 1)) : Arr α) at hs
+  obtain ⟨hs_ok, hs_r, hs_c, hs_get⟩ := hs
+  have hz : (zeros U.r 1 : Arr α).ok = true ∧ (zeros U.r 1 : Arr α).r = U.r ∧ (zeros U.r 1 : Arr α).c = 1 ∧
+      ∀ i j, (zeros U.r 1 : Arr α).get i j = 0 := by
+    refine ⟨?_, ?_, ?_, ?_⟩ <;> simp
+  name_expr zeros := (zeros U.r 1 : Arr α) at hz
   obtain ⟨hz_ok, hz_r, hz_c, hz_get⟩ := hz
-  clear_value zeros
   -- a_s
-  obtain ⟨ha_ok, ha_r, ha_c, ha_get⟩ :
-      IsMat a_s (fun i (t : Fin (kk + 1)) => aS (uAbsSorted (W1 i)) al M t.val) := by
+  have ha : IsMat (rsubs al (smul M (concat1 zeros (cumsumAxis1 S))))
+      (fun i (t : Fin (U.c + 1)) => aS (uAbsSorted (W1 i)) al M t.val) := by
     refine ⟨?_, ?_, ?_, fun i t => ?_⟩
-    · simp [a_s, hz_ok, hz_r, hS_ok, hS_r]
-    · simp [a_s, hz_r]
-    · simp [a_s, hz_c, hS_c]; omega
-    · simp only [a_s, rsubs_get, smul_get, concat1_get, cumsumAxis1_get, hz_c, hz_get, aS]
+    · simp [hz_ok, hz_r, hS_ok, hS_r]
+    · simp [hz_r]
+    · simp [hz_c, hS_c]; omega
+    · simp only [rsubs_get, smul_get, concat1_get, cumsumAxis1_get, hz_c, hz_get, aS]
       rw [zero_cumsum_getD _ _ (by rw [hLlen]; exact Nat.lt_succ_iff.mp t.isLt)]
       by_cases ht : t.val < 1
       · simp [ht]
       · rw [if_neg ht, if_neg ht, cumsumTo_congr (fun l hl => hS_nat i l (by have := t.isLt; omega))]
-  clear_value a_s
+  name_expr a_s := rsubs al (smul M (concat1 zeros (cumsumAxis1 S))) at ha
+  obtain ⟨ha_ok, ha_r, ha_c, ha_get⟩ := ha
   -- norm_v
-  obtain ⟨hn_ok, hn_r, hn_c, hn_get⟩ : IsMat norm_v (fun i (_ : Fin 1) => norm2 (Ws i)) := hV.normAxis1
-  have hn_get0 : ∀ i : Fin batch, norm_v.get i.val 0 = norm2 (Ws i) := fun i => hn_get i ⟨0, Nat.one_pos⟩
-  clear_value norm_v
+  have hn : IsMat (normAxis1 V) (fun i (_ : Fin 1) => norm2 (Ws i)) := hV.normAxis1
+  name_expr norm_v := normAxis1 V at hn
+  obtain ⟨hn_ok, hn_r, hn_c, hn_get⟩ := hn
+  have hn_get0 : ∀ i : Fin U.r, norm_v.get i.val 0 = norm2 (Ws i) := fun i => hn_get i ⟨0, Nat.one_pos⟩
   -- x, w
-  have hx : IsMat x (fun i (t : Fin (kk + 1)) => xS (uAbsSorted (W1 i)) al M (norm2 (Ws i)) t.val) := by
+  have hx : IsMat (div (maximum0 (rsubs 1 (div a_s norm_v))) (radds 1 (muls s (M * M))))
+      (fun i (t : Fin (U.c + 1)) => xS (uAbsSorted (W1 i)) al M (norm2 (Ws i)) t.val) := by
     refine ⟨?_, ?_, ?_, ?_⟩ <;>
-      simp [x, div, xS, ha_ok, ha_r, ha_c, ha_get, hn_ok, hn_r, hn_c, hn_get0, hs_ok, hs_r, hs_c, hs_get]
+      simp [div, xS, ha_ok, ha_r, ha_c, ha_get, hn_ok, hn_r, hn_c, hn_get0, hs_ok, hs_r, hs_c, hs_get]
+  name_expr x := div (maximum0 (rsubs 1 (div a_s norm_v))) (radds 1 (muls s (M * M))) at hx
   obtain ⟨hx_ok, hx_r, hx_c, hx_get⟩ := id hx
-  clear_value x
-  have hw : IsMat w (fun i (t : Fin (kk + 1)) => wS (uAbsSorted (W1 i)) al M (norm2 (Ws i)) t.val) := by
+  have hw : IsMat (mul (smul M x) norm_v)
+      (fun i (t : Fin (U.c + 1)) => wS (uAbsSorted (W1 i)) al M (norm2 (Ws i)) t.val) := by
     refine ⟨?_, ?_, ?_, ?_⟩ <;>
-      simp [w, mul, wS, hx_ok, hx_r, hx_c, hx_get, hn_ok, hn_r, hn_c, hn_get0]
+      simp [mul, wS, hx_ok, hx_r, hx_c, hx_get, hn_ok, hn_r, hn_c, hn_get0]
+  name_expr w := mul (smul M x) norm_v at hw
   obtain ⟨hw_ok, hw_r, hw_c, hw_get⟩ := id hw
-  clear_value w
   -- lower
-  have hI : IsMat intervals (fun i (j : Fin kk) => softThreshold 0 ((uAbsSorted (W1 i)).getD j.val 0)) :=
+  have hI : IsMat (Gen.Prox.soft_threshold 0 S)
+      (fun i (j : Fin U.c) => softThreshold 0 ((uAbsSorted (W1 i)).getD j.val 0)) :=
     soft_threshold_isMat 0 hS
+  name_expr intervals := Gen.Prox.soft_threshold 0 S at hI
   obtain ⟨hI_ok, hI_r, hI_c, hI_get⟩ := id hI
-  clear_value intervals
-  have hl : IsMat lower (fun i (t : Fin (kk + 1)) => lowerS (uAbsSorted (W1 i)) t.val) := by
+  have hl : IsMat (concat1 intervals zeros) (fun i (t : Fin (U.c + 1)) => lowerS (uAbsSorted (W1 i)) t.val) := by
     refine ⟨?_, ?_, ?_, fun i t => ?_⟩
-    · simp [lower, hI_ok, hI_r, hz_ok, hz_r]
-    · simp [lower, hI_r]
-    · simp [lower, hI_c, hz_c]
-    · simp only [lower, concat1_get, hI_c, hz_get, lowerS]
+    · simp [hI_ok, hI_r, hz_ok, hz_r]
+    · simp [hI_r]
+    · simp [hI_c, hz_c]
+    · simp only [concat1_get, hI_c, hz_get, lowerS]
       rw [map_append_zero_getD, hLlen]
-      by_cases ht : t.val < kk
+      by_cases ht : t.val < U.c
       · rw [if_pos ht, if_pos ht]; exact hI.get_nat i.isLt ht
       · rw [if_neg ht, if_neg ht]
+  name_expr lower := concat1 intervals zeros at hl
   obtain ⟨hl_ok, hl_r, hl_c, hl_get⟩ := id hl
-  clear_value lower
-  -- idx
-  have hi_ok : idx.ok = true := by simp [idx, hl_ok, hl_r, hl_c, hw_ok, hw_r, hw_c]
-  have hi_r : idx.r = batch := by simp [idx, hl_r, hw_r]
-  have hi_c : idx.c = 1 := by simp [idx]
-  have hi_get : ∀ i : Fin batch, idx.get i.val 0 = hierIdx (uAbsSorted (W1 i)) al M (norm2 (Ws i)) := by
-    intro i
-    simp only [idx, countAxis1_get, gtA_c, gtA_get, hl_r, hl_c, hw_r, hw_c, bdim_self, bidx_val, hierIdx, hLlen]
-    refine countTo_congr fun t ht => ?_
-    rw [bidx_of_lt ht, hw.get_nat i.isLt ht, hl.get_nat i.isLt ht]
-  clear_value idx
+  -- idx: the number of True entries of each row of `lower > w` (`np.sum` or `np.count_nonzero`)
+  have hi : (countAxis1 (gtA lower w)).ok = true ∧ (countAxis1 (gtA lower w)).r = U.r ∧ (countAxis1 (gtA lower w)).c = 1 ∧
+      ∀ i : Fin U.r, (countAxis1 (gtA lower w)).get i.val 0 = hierIdx (uAbsSorted (W1 i)) al M (norm2 (Ws i)) := by
+    refine ⟨?_, ?_, ?_, fun i => ?_⟩
+    · simp [hl_ok, hl_r, hl_c, hw_ok, hw_r, hw_c]
+    · simp [hl_r, hw_r]
+    · simp
+    · simp only [countAxis1_get, gtA_c, gtA_get, hl_r, hl_c, hw_r, hw_c, bdim_self, bidx_val, hierIdx, hLlen]
+      refine countTo_congr fun t ht => ?_
+      rw [bidx_of_lt ht, hw.get_nat i.isLt ht, hl.get_nat i.isLt ht]
+  name_expr idx := countAxis1 (gtA lower w) at hi
+  obtain ⟨hi_ok, hi_r, hi_c, hi_get⟩ := hi
   refine ⟨fun hidx => ?_, fun ⟨i0, hi0⟩ => ?_⟩
-  · -- x_star, w_star
+  · -- x_star, w_star: `np.take_along_axis(·, idx, axis=1)`, with or without the (redundant) `.reshape((batch, 1))`
     have htx : (takeAlong1 x idx).ok = true :=
       (takeAlong1_ok_col hx_ok hi_ok (hi_r.trans hx_r.symm) hi_c).mpr fun i hi => by
         rw [hx_r] at hi
@@ -213,40 +225,53 @@ theorem mlp_prox_grad_spec (H : OrderLaws α) (al M : α) {V U : Arr α} {Ws : F
         simp only at this
         rw [this, hw_c]
         exact Nat.lt_succ_iff.mpr (hidx ⟨i, hi⟩)
-    have hxs : IsMat x_star (fun i (_ : Fin 1) => xStar (Ws i) (W1 i) al M) := by
+    have hxs : IsMat (reshape2 (takeAlong1 x idx) U.r 1) (fun i (_ : Fin 1) => xStar (Ws i) (W1 i) al M) := by
       refine ⟨?_, ?_, ?_, fun i j => ?_⟩
-      · simp [x_star, htx, hx_r, hi_r, hi_c]
-      · simp [x_star]
-      · simp [x_star]
-      · simp [x_star, hx_r, hi_r, hi_c, hi_get, xStar, Nat.mod_one]
+      · simp [htx, hx_r, hi_r, hi_c]
+      · simp
+      · simp
+      · simp [hx_r, hi_r, hi_c, hi_get, xStar, Nat.mod_one]
         exact hx.get_nat i.isLt (Nat.lt_succ_iff.mpr (hidx i))
-    have hws : IsMat w_star (fun i (_ : Fin 1) => wStar (Ws i) (W1 i) al M) := by
+    have hxs' : IsMat (takeAlong1 x idx) (fun i (_ : Fin 1) => xStar (Ws i) (W1 i) al M) := by
+      refine ⟨htx, ?_, ?_, fun i j => ?_⟩
+      · simp [hx_r, hi_r]
+      · simp [hi_c]
+      · have hj : j.val = 0 := by omega
+        simp [hx_r, hi_r, hi_c, hi_get, xStar, hj]
+        exact hx.get_nat i.isLt (Nat.lt_succ_iff.mpr (hidx i))
+    have hws : IsMat (reshape2 (takeAlong1 w idx) U.r 1) (fun i (_ : Fin 1) => wStar (Ws i) (W1 i) al M) := by
       refine ⟨?_, ?_, ?_, fun i j => ?_⟩
-      · simp [w_star, htw, hw_r, hi_r, hi_c]
-      · simp [w_star]
-      · simp [w_star]
-      · simp [w_star, hw_r, hi_r, hi_c, hi_get, wStar, Nat.mod_one]
+      · simp [htw, hw_r, hi_r, hi_c]
+      · simp
+      · simp
+      · simp [hw_r, hi_r, hi_c, hi_get, wStar, Nat.mod_one]
         exact hw.get_nat i.isLt (Nat.lt_succ_iff.mpr (hidx i))
-    obtain ⟨hxs_ok, hxs_r, hxs_c, hxs_get⟩ := id hxs
-    obtain ⟨hws_ok, hws_r, hws_c, hws_get⟩ := id hws
-    have hxs_get0 : ∀ i : Fin batch, x_star.get i.val 0 = xStar (Ws i) (W1 i) al M := fun i => hxs_get i ⟨0, Nat.one_pos⟩
-    have hws_get0 : ∀ i : Fin batch, w_star.get i.val 0 = wStar (Ws i) (W1 i) al M := fun i => hws_get i ⟨0, Nat.one_pos⟩
-    clear_value x_star w_star
-    -- the two results
+    have hws' : IsMat (takeAlong1 w idx) (fun i (_ : Fin 1) => wStar (Ws i) (W1 i) al M) := by
+      refine ⟨htw, ?_, ?_, fun i j => ?_⟩
+      · simp [hw_r, hi_r]
+      · simp [hi_c]
+      · have hj : j.val = 0 := by omega
+        simp [hw_r, hi_r, hi_c, hi_get, wStar, hj]
+        exact hw.get_nat i.isLt (Nat.lt_succ_iff.mpr (hidx i))
+    -- whichever spelling the source uses becomes a name; the other name does not occur in the goal
+    name_expr x_star := reshape2 (takeAlong1 x idx) U.r 1 at hxs
+    name_expr w_star := reshape2 (takeAlong1 w idx) U.r 1 at hws
+    name_expr x_star' := takeAlong1 x idx at hxs'
+    name_expr w_star' := takeAlong1 w idx at hws'
+    obtain ⟨hxs_ok, hxs_r, hxs_c, hxs_get⟩ := hxs
+    obtain ⟨hws_ok, hws_r, hws_c, hws_get⟩ := hws
+    obtain ⟨hxs_ok', hxs_r', hxs_c', hxs_get'⟩ := hxs'
+    obtain ⟨hws_ok', hws_r', hws_c', hws_get'⟩ := hws'
+    have hxs_get0 : ∀ i : Fin U.r, x_star.get i.val 0 = xStar (Ws i) (W1 i) al M := fun i => hxs_get i ⟨0, Nat.one_pos⟩
+    have hws_get0 : ∀ i : Fin U.r, w_star.get i.val 0 = wStar (Ws i) (W1 i) al M := fun i => hws_get i ⟨0, Nat.one_pos⟩
+    have hxs_get0' : ∀ i : Fin U.r, x_star'.get i.val 0 = xStar (Ws i) (W1 i) al M := fun i => hxs_get' i ⟨0, Nat.one_pos⟩
+    have hws_get0' : ∀ i : Fin U.r, w_star'.get i.val 0 = wStar (Ws i) (W1 i) al M := fun i => hws_get' i ⟨0, Nat.one_pos⟩
+    -- the two results (the signs are `np.where(u >= 0, 1, -1)`, or an array of `-1` overwritten with `1` where `u >= 0`)
     obtain ⟨hT_ok, hT_r, hT_c, hT_get⟩ := soft_threshold_isMat (0 : α) hUabs
-    have hb : IsMat beta_star (mlpProx Ws W1 al M).1 := by
-      refine ⟨?_, ?_, ?_, ?_⟩ <;>
-        simp [beta_star, v, mul, mlpProx, hierProxRow, hxs_ok, hxs_r, hxs_c, hxs_get0, hVok, hVr, hVc, hVget]
-    have ht : IsMat theta_star (mlpProx Ws W1 al M).2 := by
-      refine ⟨?_, ?_, ?_, ?_⟩ <;>
-        simp [theta_star, u, mul, minimum, mlpProx, hierProxRow, signPM, hws_ok, hws_r, hws_c, hws_get0, hUok, hUr, hUc, hUget,
-          hT_ok, hT_r, hT_c, hT_get]
-    have hflags : flags = true := by
-      simp [flags, v, u, hVok, hUok, hS_ok, hs_ok, hz_ok, ha_ok, hn_ok, hx_ok, hw_ok, hI_ok, hl_ok, hi_ok, hxs_ok, hws_ok,
-        hb.1, ht.1]
-    rw [hflags]
-    exact ⟨⟨by simp [hb.1], hb.2.1, hb.2.2.1, hb.2.2.2⟩, ⟨by simp [ht.1], ht.2.1, ht.2.2.1, ht.2.2.2⟩⟩
-
+    refine ⟨⟨?_, ?_, ?_, ?_⟩, ⟨?_, ?_, ?_, ?_⟩⟩ <;>
+      simp [mul, minimum, mlpProx, hierProxRow, signPM, hVok, hVr, hVc, hVget, hUok, hUget, hS_ok, hs_ok, hz_ok, ha_ok, hn_ok,
+        hx_ok, hw_ok, hI_ok, hl_ok, hi_ok, hxs_ok, hxs_r, hxs_c, hxs_get0, hws_ok, hws_r, hws_c, hws_get0, hxs_ok', hxs_r',
+        hxs_c', hxs_get0', hws_ok', hws_r', hws_c', hws_get0', hT_ok, hT_r, hT_c, hT_get]
   · -- IndexError
     have htx : (takeAlong1 x idx).ok = false := by
       by_contra hne
@@ -254,9 +279,10 @@ theorem mlp_prox_grad_spec (H : OrderLaws α) (al M : α) {V U : Arr α} {Ws : F
       have := (takeAlong1_ok_col hx_ok hi_ok (hi_r.trans hx_r.symm) hi_c).mp hok i0.val (by rw [hx_r]; exact i0.isLt)
       rw [hi_get i0, hi0, hx_c] at this
       omega
-    have hxs_ok : x_star.ok = false := by simp [x_star, htx]
-    have hflags : flags = false := by simp [flags, hxs_ok]
-    simp [hflags]
+    have hxs_ok : (reshape2 (takeAlong1 x idx) U.r 1).ok = false := by simp [htx]
+    name_expr x_star := reshape2 (takeAlong1 x idx) U.r 1 at hxs_ok
+    name_expr x_star' := takeAlong1 x idx at htx
+    simp [hxs_ok, htx]
 
 /-- Under the order laws, when every row's breakpoint count is a valid column, `mlp_prox_grad(W_skip_, W1_, alpha, M)` as
     written in the source returns, for a `d × k` and a `d × h` weight array, exactly the pair `mlpProx Ws W1 alpha M` of
